@@ -22,7 +22,8 @@ def bounds(tier):
     q = tier == "quick"
     return {"timing": "PROTOCOL_TIMEOUT 0.25 s, PAUSE_BETWEEN_RETRIES 0.2 s of virtual time (3 polls per attempt): values of "
                       "the mutable GeckoConfig object",
-            "single caller": f"retry count 1..{2 if q else 3}; at every poll opportunity: nothing / matching reply / foreign datagram",
+            "single caller": f"retry count 1..{2 if q else 4} (with foreign traffic 1..{2 if q else 3}); at every poll opportunity: "
+                             "nothing / matching reply / foreign datagram",
             "callers": f"2..{2 if q else 3} concurrent callers, start slots 0..2 polls apart, each request answered or never",
             "gates": "connected flag both ways, ping age a free real in [0, 500] s"}
 
@@ -336,11 +337,11 @@ def gates(sx):
 
 def units(tier):
     q = tier == "quick"
-    R = 2 if q else 3
+    R = 2 if q else 4
     for first in range(2):
         yield Unit(f"single.replies.first{first}", single_caller(R, False), presets={"attempt0_poll0": first}, max_paths=100000)
     for first in range(3):
-        yield Unit(f"single.foreign.first{first}", single_caller(R if q else 2, True), presets={"attempt0_poll0": first},
+        yield Unit(f"single.foreign.first{first}", single_caller(2 if q else 3, True), presets={"attempt0_poll0": first},
                    max_paths=200000)
     yield Unit("callers", many_callers(2 if q else 3), max_paths=100000)
     yield Unit("gates", gates)
